@@ -375,13 +375,34 @@ pub fn ser_events(h: &Handle) -> Value {
             Ok(())
         }
     }
-    let mut rec = Rec(Vec::new());
-    let sh: SerializableHandle = h.clone().into();
-    match catch(move || { let r = sh.serialize(&mut rec, TraversalScope::ChildrenOnly(None)); (r.is_ok(), rec.0) }) {
-        Ok((true, v)) => Value::Array(v),
-        Ok((false, _)) => json!([{"k":"error","n":[],"a":0}]),
-        Err(_) => json!([{"k":"panic","n":[],"a":0}]),
+    fn one(h: &Handle, scope: TraversalScope) -> Value {
+        let mut rec = Rec(Vec::new());
+        let sh: SerializableHandle = h.clone().into();
+        match catch(move || { let r = sh.serialize(&mut rec, scope); (r.is_ok(), rec.0) }) {
+            Ok((true, v)) => Value::Array(v),
+            Ok((false, _)) => json!([{"k":"error","n":[],"a":0}]),
+            Err(_) => json!([{"k":"panic","n":[],"a":0}]),
+        }
     }
+    // every template element of the tree (document order, through template contents) serialized on its own, with both
+    // traversal scopes: [children-only visits, include-node visits]
+    fn templates(h: &Handle, out: &mut Vec<Value>) {
+        if let NodeData::Element { name, template_contents, .. } = &h.data {
+            if let Some(tc) = template_contents.borrow().as_ref() {
+                out.push(json!([one(h, TraversalScope::ChildrenOnly(Some(name.clone()))), one(h, TraversalScope::IncludeNode)]));
+                for c in tc.children.borrow().iter() {
+                    templates(c, out);
+                }
+                return;
+            }
+        }
+        for c in h.children.borrow().iter() {
+            templates(c, out);
+        }
+    }
+    let mut t = Vec::new();
+    templates(h, &mut t);
+    json!({"doc": one(h, TraversalScope::ChildrenOnly(None)), "templates": t})
 }
 
 /// every node's parent link names the node whose child list contains it (C20)
